@@ -39,6 +39,7 @@ func (ctn Writer) ToCbor() ([]byte, error) {
 
 // ToCborWriter is the same as ToCbor, but with an io.Writer.
 func (ctn Writer) ToCborWriter(w io.Writer) error {
+	w = shortWriteGuard{w}
 	node, err := qp.BuildMap(basicnode.Prototype.Any, 1, func(ma datamodel.MapAssembler) {
 		qp.MapEntry(ma, currentContainerVersion, qp.List(int64(len(ctn)), func(la datamodel.ListAssembler) {
 			for _, data := range ctn {
@@ -64,6 +65,7 @@ func (ctn Writer) ToCborBase64() ([]byte, error) {
 
 // ToCborBase64Writer is the same as ToCborBase64, but with an io.Writer.
 func (ctn Writer) ToCborBase64Writer(w io.Writer) (err error) {
+	w = shortWriteGuard{w}
 	w2 := base64.NewEncoder(base64.StdEncoding, w)
 	defer func() {
 		// Close flushes the last, partially filled base64 block: its error must not be lost
@@ -86,6 +88,7 @@ func (ctn Writer) ToCar() ([]byte, error) {
 
 // ToCarWriter is the same as ToCar, but with an io.Writer.
 func (ctn Writer) ToCarWriter(w io.Writer) error {
+	w = shortWriteGuard{w}
 	return writeCar(w, nil, func(yield func(carBlock, error) bool) {
 		for c, data := range ctn {
 			if !yield(carBlock{c: c, data: data}, nil) {
@@ -107,6 +110,7 @@ func (ctn Writer) ToCarBase64() ([]byte, error) {
 
 // ToCarBase64Writer is the same as ToCarBase64, but with an io.Writer.
 func (ctn Writer) ToCarBase64Writer(w io.Writer) (err error) {
+	w = shortWriteGuard{w}
 	w2 := base64.NewEncoder(base64.StdEncoding, w)
 	defer func() {
 		// Close flushes the last, partially filled base64 block: its error must not be lost
@@ -115,4 +119,20 @@ func (ctn Writer) ToCarBase64Writer(w io.Writer) (err error) {
 		}
 	}()
 	return ctn.ToCarWriter(w2)
+}
+
+// shortWriteGuard reports io.ErrShortWrite when the wrapped writer accepts fewer
+// bytes than it was given without returning an error: neither the CAR section
+// writer nor encoding/base64 look at the count, and the container would be
+// reported as written although part of it is missing.
+type shortWriteGuard struct {
+	w io.Writer
+}
+
+func (g shortWriteGuard) Write(p []byte) (int, error) {
+	n, err := g.w.Write(p)
+	if err == nil && n < len(p) {
+		err = io.ErrShortWrite
+	}
+	return n, err
 }
